@@ -35,7 +35,7 @@ ASSUMPTIONS = ["port-status messages that arrive before the features reply "
                "connection (no ConnectionUp, no ConnectionDown demanded)",
                "sockets are in-memory; loss is injected at the socket API"]
 REQUIRED = ["histories", "connections_up", "connections_down",
-            "early_port_status", "reconnect_before_stale_close",
+            "early_port_status", "handshakes_with_very_many_early_port_status", "reconnect_before_stale_close",
             "registry_checks", "registry_checks_in_up_handler", "send_probes",
             "loss_mid_handshake",
             "barrier_unsupported_path", "reads_carrying_several_messages",
@@ -842,12 +842,33 @@ def gen_reconnect (rng, n):
     yield dict(ops=ops + tail)
 
 
+def gen_mass (sizes):
+  """A switch with many ports that reports each of them (down, up, ...)
+  while its handshake is still going on: all of these notifications are owed
+  after connection-up, in order - however many they are."""
+  for n in sizes:
+    for hold in (False, True):
+      ops = [["connect", 0], ["msg", 0, "hello"], ["msg", 0, "features", 0]]
+      for i in range(n):
+        ops.append(["msg", 0, "port_status", 1 + i % 4, (i // 4) % 3] + (["hold"] if hold else []))
+      ops += [["msg", 0, ("barrier_ok", "barrier_err")[n % 2]], ["send", 0],
+              ["msg", 0, "port_status", 2], ["lose", 0, "eof"], ["send", 0]]
+      yield dict(ops=ops, mass=n)
+
+
 def plan (tier, seed):
   if tier == "quick":
     return ([dict(mode="single", shard=i, nshards=64) for i in range(6)] +
+            [dict(mode="mass", sizes=[17, 33, 65, 129, 300]),
+             dict(mode="mass", sizes=[1025, 2100]), dict(mode="mass", sizes=[4200])] +
             [dict(mode="multi", n=1500, maxlen=25, sub=i) for i in range(6)] +
             [dict(mode="reconnect", n=400, sub=i) for i in range(4)])
   return ([dict(mode="single", shard=i, nshards=16) for i in range(16)] +
+          [dict(mode="mass", sizes=list(range(10 + i, 600, 16))) for i in range(16)] +
+          [dict(mode="mass", sizes=[1000 + i, 4090 + i, 8190 + i]) for i in range(8)] +
+          [dict(mode="mass", sizes=[16380 + i]) for i in range(4)] +
+          [dict(mode="mass", sizes=[32766 + i]) for i in range(4)] +
+          [dict(mode="mass", sizes=[65530 + 5 * i]) for i in range(4)] +
           [dict(mode="multi", n=60000, maxlen=40, sub=i) for i in range(32)] +
           [dict(mode="reconnect", n=40000, sub=i) for i in range(16)])
 
@@ -860,6 +881,7 @@ def run (spec, rep):
     if spec["shard"] == 0:
       import itertools
       g = itertools.chain(gen_sendfault(), g)
+  elif spec["mode"] == "mass": g = gen_mass(spec["sizes"])
   elif spec["mode"] == "multi": g = gen_multi(rng, spec["n"], spec["maxlen"])
   else: g = gen_reconnect(rng, spec["n"])
   first = True
@@ -873,8 +895,11 @@ def run (spec, rep):
     if n % 3 == 0:
       case["reclose"] = [("nexus", "msg"), ("con", "msg"), ("nexus", "disconnect"),
                          ("con", "disconnect")][(n // 3) % 4]
+    if case.get("mass"):
+      rep.count("handshakes_with_very_many_early_port_status")
+      rep.maxi("early_port_status_in_one_handshake", case["mass"])
     do_case(case, rep)
-    if first: rep.sample(case); first = False
+    if first and not case.get("mass"): rep.sample(case); first = False
 
 
 def replay (witness, rep):
